@@ -285,6 +285,9 @@ def knn_from_pick(dirs, c, pick):
     for _, ids in dc:
         s += len(ids)
         cum.append(s)
+    if pick % 4 == 3:
+        # any k: the judge detects an exact tie at the k-th place and does not judge the case
+        return {"t": "knn", "c": list(c), "k": 1 + (pick // 4) % len(dirs)}
     return {"t": "knn", "c": list(c), "k": cum[pick % len(cum)]}
 
 
